@@ -16,39 +16,57 @@ DIM = {'Cp': ('CpoR', 'kJ/mol/K', False), 'H': ('HoRT', 'kJ/mol', True), 'S': ('
        'G': ('GoRT', 'kJ/mol', True)}
 
 
-def species_obj(I, repo, kind, misc):
+PHASES = (None, 'S', 'G')
+
+
+def species_obj(I, repo, kind, misc, phase=None, add=None):
+    """a species built by its PUBLIC constructor (every attribute has the value the constructor gives it, the defaults
+    included); returns the object and the coefficient vectors the rule handed over"""
     D = I.D
+    fr = Frame(I, repo.module('pmutt'), {}, None, None)
+    kw = {'name': 'sp', 'phase': phase, 'misc_models': misc}
+    if add is not None:
+        kw['add_gas_P_adj'] = add
     if kind == 'Nasa':
-        o = Obj('sp', repo.cls(NASA + '.Nasa'), attrs={'a_low': coeff_vector(I, 'lo', 7),
-                                                      'a_high': coeff_vector(I, 'hi', 7)})
+        co = {'lo': coeff_vector(I, 'lo', 7), 'hi': coeff_vector(I, 'hi', 7)}
+        kw.update({'T_low': D.sym('sp.T_low'), 'T_mid': D.sym('sp.T_mid'), 'T_high': D.sym('sp.T_high'),
+                   'a_low': ListV(list(co['lo'].items)), 'a_high': ListV(list(co['hi'].items))})
+        qual = NASA + '.Nasa'
     elif kind == 'Nasa9':
-        seg = Obj('seg0', repo.cls(NASA + '.SingleNasa9'), attrs={'a': coeff_vector(I, 's', 9)})
-        o = Obj('sp', repo.cls(NASA + '.Nasa9'))
-        set_public(I, o, 'nasas', ListV([seg]))
+        co = {'s': coeff_vector(I, 's', 9)}
+        seg = fr.apply(repo.cls(NASA + '.SingleNasa9'), [],
+                       {'T_low': D.sym('seg0.T_low'), 'T_high': D.sym('seg0.T_high'),
+                        'a': ListV(list(co['s'].items))}, None)
+        kw['nasas'] = ListV([seg])
+        qual = NASA + '.Nasa9'
     else:
-        o = Obj('sp', repo.cls(SHO + '.Shomate'), attrs={'a': coeff_vector(I, 'a', 8)})
-        set_public(I, o, 'units', 'J/mol/K')
-    o.attrs.update({'name': 'sp', 'misc_models': misc})
+        co = {'a': coeff_vector(I, 'a', 8)}
+        kw.update({'T_low': D.sym('sp.T_low'), 'T_high': D.sym('sp.T_high'), 'a': ListV(list(co['a'].items)),
+                   'units': 'J/mol/K'})
+        qual = SHO + '.Shomate'
+    try:
+        o = fr.apply(repo.cls(qual), [], kw, None)
+    except _RaisedExc as e:
+        raise Unsupported('%s(phase=%r, ...) raises %s for the model species' % (kind, phase, e.raised.exc))
     sel_opaque(o)
-    return o
+    return o, co
 
 
-def bare(I, repo, kind, o, q, T):
-    """polynomial value without attached models"""
+def bare(I, repo, kind, co, q, T):
+    """polynomial value without attached models, from the coefficients the rule handed to the constructor"""
     if kind == 'Nasa':
         m = repo.module(NASA)
-        f = lambda qq: I.call_function(m, m.functions['get_nasa_' + qq], [], {'a': o.attrs['a_low'], 'T': T})
+        f = lambda qq: I.call_function(m, m.functions['get_nasa_' + qq], [], {'a': co['lo'], 'T': T})
     elif kind == 'Nasa9':
         m = repo.module(NASA)
-        f = lambda qq: I.call_function(m, m.functions['get_nasa9_' + qq], [],
-                                       {'a': get_public(I, o, 'nasas').items[0].attrs['a'], 'T': T})
+        f = lambda qq: I.call_function(m, m.functions['get_nasa9_' + qq], [], {'a': co['s'], 'T': T})
     else:
         m = repo.module(SHO)
 
         def f(qq):
             arr = ListV([T])
             arr.is_array = True
-            r = I.call_function(m, m.functions['get_shomate_' + qq], [], {'a': o.attrs['a'], 'T': arr,
+            r = I.call_function(m, m.functions['get_shomate_' + qq], [], {'a': co['a'], 'T': arr,
                                                                          'units': 'J/mol/K'})
             return r.items[0]
     if q == 'GoRT':
@@ -63,59 +81,69 @@ def ranks(n):
     return r
 
 
-def summation(run, repo, max_len):
+def summation(run, repo, max_len, thorough=False):
     """0-3 attached models (uninterpreted getters that record their arguments), through the package's own
-    aggregation: value = bare + sum over models, per element"""
+    aggregation: value = bare + sum over models, per element.  The species is built by its public constructor without
+    a phase (the default), as a surface species and as a gas species (which attaches its own pressure adjustment
+    behind the models handed over: S gets - ln P on top)."""
     n = 0
     for kind in ('Nasa', 'Nasa9', 'Shomate'):
-        for q in QS + tuple(DIM):
+        for qi, q in enumerate(QS + tuple(DIM)):
           # the getters with units (fixed unit: the conversion itself is C04's subject) with two attached models
           for k in ((2, 0, 1, 3)[:4 if max_len > 3 else 3] if q in QS else (2,)):
+           # quick: every phase with two models on the dimensionless getters, one phase (rotating) otherwise
+           for phase in (PHASES if thorough or (k == 2 and q in QS) else (PHASES[(qi + k) % 3],)):
             I = Interp(repo, order=RankOrder(ranks(max_len)))
             D = I.D
             P, x = D.sym('P'), D.sym('x')
-            misc = attached_models(I, k, params=('T', 'P', 'x'))
-            o = species_obj(I, repo, kind, misc)
+            models = attached_models(I, k, params=('T', 'P', 'x'))
+            # no models: not given at all (the default) / an empty list
+            misc = ListV(list(models.items)) if k or phase == 'S' else None
+            o, co = species_obj(I, repo, kind, misc, phase)
+            own = phase == 'G'          # the constructor attached a pressure adjustment of its own
             owner, fn = repo.find_method(o.ci, 'get_' + q)
             run.fn(owner.qual + '.get_' + q)
             con = '%s.get_%s' % (kind, q)
-            tag = '' if k == 2 else ' (%d attached)' % k
+            tag = ('' if k == 2 else ' (%d attached)' % k) + \
+                ('' if phase is None else ', surface species' if phase == 'S' else ', gas species')
             extra = {}
             if q in DIM:
-                # documented attribute of every species; no composition: molar units only
-                o.attrs['elements'] = None
+                # no composition (the default): molar units only
                 extra = {'units': DIM[q][1]}
             dimtxt = 'R%s (units=%r) times ' % ('*T' if DIM[q][2] else '', DIM[q][1]) if q in DIM else ''
+            owntxt = ' and of the gas species\' own pressure adjustment (S: - ln P)' if own else ''
 
             def flat(v):
                 if isinstance(v, SumV):
                     return v.scalar + v.elem if v.elem.iszero() else v
                 return v
 
+            def dimless(q0, Tv):
+                if q0 == 'GoRT':
+                    return dimless('HoRT', Tv) - dimless('SoR', Tv)
+                v = bare(I, repo, kind, co, q0, Tv) + attached_sum(I, models, q0, T=Tv, P=P, x=x)
+                if own and q0 == 'SoR':
+                    v = v - D.ln(P)
+                return v
+
             def want_at(Tv):
                 if q in DIM:
                     q0, u, timesT = DIM[q]
-                    if q0 == 'GoRT':
-                        v = (bare(I, repo, kind, o, 'HoRT', Tv) + attached_sum(I, misc, 'HoRT', T=Tv, P=P, x=x)) - \
-                            (bare(I, repo, kind, o, 'SoR', Tv) + attached_sum(I, misc, 'SoR', T=Tv, P=P, x=x))
-                    else:
-                        v = bare(I, repo, kind, o, q0, Tv) + attached_sum(I, misc, q0, T=Tv, P=P, x=x)
                     # R in the requested molar unit, written out: kb * Na * (J -> unit)
-                    v = v * D.sym('kb') * D.sym('Na') * I.unit(u.split('/')[0])
+                    v = dimless(q0, Tv) * D.sym('kb') * D.sym('Na') * I.unit(u.split('/')[0])
                     return v * Tv if timesT else v
-                if q == 'GoRT':
-                    return (bare(I, repo, kind, o, 'HoRT', Tv) + attached_sum(I, misc, 'HoRT', T=Tv, P=P, x=x)) - \
-                        (bare(I, repo, kind, o, 'SoR', Tv) + attached_sum(I, misc, 'SoR', T=Tv, P=P, x=x))
-                return bare(I, repo, kind, o, q, Tv) + attached_sum(I, misc, q, T=Tv, P=P, x=x)
+                return dimless(q, Tv)
             # scalar
             T = D.sym('T')
             got = flat(I.call_method(o, 'get_' + q, [], dict({'T': T, 'P': P, 'x': x}, **extra)))
             run.check(same(got, want_at(T)), 'BRANCH-TWIN.scalar', con, 'scalar T' + tag,
                       'value at a scalar temperature is %s, expected %sthe bare polynomial plus the sum over every '
-                      'attached model at the same T and conditions' % (show(got, 200), dimtxt), owner.module, fn,
+                      'attached model at the same T and conditions%s' % (show(got, 200), dimtxt, owntxt),
+                      owner.module, fn,
                       sample=('%s(T,units,P,x) == R%s * (poly(T) + sum_models model.get_%s(T,P,x))'
                               % (con, '*T' if DIM[q][2] else '', DIM[q][0]) if q in DIM else
-                              '%s(T,P,x) == poly(T) + sum_models model.get_%s(T,P,x)' % (con, q)) if k == 2 else None)
+                              '%s(T,P,x) == poly(T) + sum_models model.get_%s(T,P,x)' % (con, q))
+                      if k == 2 and phase is None else None)
             n += 1
             # arrays
             bad = None
@@ -136,8 +164,8 @@ def summation(run, repo, max_len):
             if bad is not None:
                 run.fail('BRANCH-TWIN.array', con, 'array T' + tag,
                          'for an array of %d temperatures the result %s is not, element by element, %sthe bare '
-                         'polynomial plus the sum over every attached model evaluated at that element\'s temperature'
-                         % (bad[0], show(bad[1], 260), dimtxt), owner.module, fn)
+                         'polynomial plus the sum over every attached model%s evaluated at that element\'s temperature'
+                         % (bad[0], show(bad[1], 260), dimtxt, owntxt), owner.module, fn)
     return n
 
 
@@ -356,66 +384,111 @@ def constructors(run, repo, thorough):
     return n
 
 
-def real_models(run, repo):
-    """real GasPressureAdj and PiecewiseCovEffect through the real aggregation over misc_models"""
+# pressures of the quantifier (1e-3 - 1e2 bar) as numbers: the ends, the reference pressure itself and its two
+# neighbours closer than any usual tolerance (a correction that is switched off "near" 1 bar shows there)
+PRESSURES = (Fr(1, 1000), Fr(1), Fr(1000008, 1000000), Fr(999992, 1000000), Fr(10), Fr(100))
+# species a coverage effect refers to: real adsorbates - one a prefix of another, one a part of both - and names that
+# touch the text of the "<name>_kwargs" key: ending in one of its letters, containing '_', containing the word itself
+NAME = {'B': 'CO', 'C': 'CO2', 'D': 'O', 'E': 'Ag', 'F': 'CO_s', 'H': 'kwargs_A'}
+
+
+def real_models(run, repo, thorough=False):
+    """real GasPressureAdj and PiecewiseCovEffect through the real aggregation over misc_models, on species built by
+    the public constructors"""
     n = 0
+    cci = repo.cls('pmutt.mixture.cov.PiecewiseCovEffect')
+    # (phase, models handed to the constructor): an adjustment handed over by the user counts for every phase, a gas
+    # species attaches its own when there is none
+    CASES = ((None, 'adj,cov'), (None, 'cov,adj'), ('S', 'adj,cov'), ('S', 'cov,adj'), ('G', 'adj,cov'),
+             ('G', 'cov,adj'), ('G', 'cov'), ('G', None), ('gas', ''))
     for kind in ('Nasa', 'Nasa9', 'Shomate'):
-        I = Interp(repo, order=RankOrder(dict(ranks(2), xcov=1, b1=5), const_ranks=True))
-        D = I.D
-        fr = Frame(I, repo.module('pmutt'), {}, None, None)
-        adj = fr.apply(repo.cls(GPA), [], {}, None)
-        cov = fr.apply(repo.cls('pmutt.mixture.cov.PiecewiseCovEffect'), [],
-                       {'name_i': 'sp', 'name_j': 'B', 'intervals': ListV([C(0), D.sym('b1')]),
-                        'slopes': ListV([D.sym('k0'), D.sym('k1')])}, None)
-        T, P, x = D.sym('T'), D.sym('P'), D.sym('xcov')
-        for order_ in ((adj, cov), (cov, adj)):
-            o = species_obj(I, repo, kind, ListV(list(order_)))
+        for phase, form in CASES:
+            I = Interp(repo, order=RankOrder(dict(ranks(2), xcov=1, b1=5), const_ranks=True))
+            D = I.D
+            fr = Frame(I, repo.module('pmutt'), {}, None, None)
+            T, P, x = D.sym('T'), D.sym('P'), D.sym('xcov')
+            toks = [t for t in (form or '').split(',') if t]
+            handed = []
+            for t in toks:
+                if t == 'adj':
+                    handed.append(fr.apply(repo.cls(GPA), [], {}, None))
+                else:
+                    handed.append(fr.apply(cci, [], {'name_i': 'sp', 'name_j': 'B',
+                                                     'intervals': ListV([C(0), D.sym('b1')]),
+                                                     'slopes': ListV([D.sym('k0'), D.sym('k1')])}, None))
+            o, co = species_obj(I, repo, kind, None if form is None else ListV(handed), phase)
             Rk = D.sym('kb') * D.sym('Na') * D.sym('U<kcal>')
-            covU = D.sym('k0') * x / (Rk * T)
-            exp = {'CpoR': bare(I, repo, kind, o, 'CpoR', T),
-                   'HoRT': bare(I, repo, kind, o, 'HoRT', T) + covU,
-                   'SoR': bare(I, repo, kind, o, 'SoR', T) - D.ln(P)}
+            covU = D.sym('k0') * x / (Rk * T) if 'cov' in toks else C(0)
+            exp = {'CpoR': bare(I, repo, kind, co, 'CpoR', T),
+                   'HoRT': bare(I, repo, kind, co, 'HoRT', T) + covU,
+                   'SoR': bare(I, repo, kind, co, 'SoR', T) - D.ln(P)}
             exp['GoRT'] = exp['HoRT'] - exp['SoR']
+            desc = 'a %s species built with misc_models=%s' % (
+                {None: 'phase-less', 'S': 'surface'}.get(phase, 'gas (phase=%r)' % phase),
+                'None' if form is None else '[%s]' % ', '.join({'adj': 'GasPressureAdj', 'cov': 'PiecewiseCovEffect'}[t]
+                                                             for t in toks))
+            key = 'pressure+coverage' if 'cov' in toks else 'pressure'
+            key += '' if phase is None else ', surface species' if phase == 'S' else ', gas species'
             for q in QS:
                 owner, fn = repo.find_method(o.ci, 'get_' + q)
                 got = I.call_method(o, 'get_' + q, [], {'T': T, 'P': P, 'x': x})
                 if isinstance(got, SumV):
                     got = got.scalar + got.elem if got.elem.iszero() else got
-                run.check(same(got, exp[q]), 'REF.corrections', '%s.get_%s' % (kind, q),
-                          'pressure+coverage',
-                          'with a pressure adjustment and a coverage effect attached (order %s) the value is %s, '
-                          'expected polynomial %s' % ('adj,cov' if order_[0] is adj else 'cov,adj', show(got, 200),
-                                                      {'CpoR': '(unchanged)', 'HoRT': '+ coverage energy/RT',
-                                                       'SoR': '- ln(P/bar)', 'GoRT': '+ coverage energy/RT + ln P'}[q]),
+                run.check(same(got, exp[q]), 'REF.corrections', '%s.get_%s' % (kind, q), key,
+                          'for %s the value is %s, expected polynomial %s'
+                          % (desc, show(got, 200),
+                             {'CpoR': '(unchanged)', 'HoRT': '+ coverage energy/RT' if 'cov' in toks else '(unchanged)',
+                              'SoR': '- ln(P/bar)', 'GoRT': ('+ coverage energy/RT ' if 'cov' in toks else '') +
+                              '+ ln(P/bar)'}[q]),
                           owner.module, fn,
-                          sample='%s.get_%s with [GasPressureAdj, PiecewiseCovEffect]' % (kind, q))
+                          sample='%s.get_%s with [GasPressureAdj, PiecewiseCovEffect]' % (kind, q)
+                          if (phase, form) == CASES[0] else None)
                 n += 1
-    # several coverage effects, each addressed through its own per-species keyword block, in both orders: every
-    # model must see its own species' coverage (conditions of one model must not leak into the next)
-    for kind in ('Nasa', 'Nasa9', 'Shomate'):
-        I = Interp(repo, order=RankOrder(dict(ranks(2), xB=1, xC=1, xD=1, bB=5, bC=5, bD=5), const_ranks=True))
+        # the pressure as a number: S(P) = S(1 bar) - ln(P/bar) at the ends of the range, at 1 bar and next to it
+        I = Interp(repo, order=RankOrder(ranks(2), const_ranks=True))
         D = I.D
-        fr = Frame(I, repo.module('pmutt'), {}, None, None)
-        T, P = D.sym('T'), D.sym('P')
-        covs = {}
-        # names of real adsorbates: one is a prefix of another, one is a suffix-free part of both
-        NAME = {'B': 'CO', 'C': 'CO2', 'D': 'O'}
-        for j in ('B', 'C', 'D'):
-            covs[j] = fr.apply(repo.cls('pmutt.mixture.cov.PiecewiseCovEffect'), [],
-                               {'name_i': 'sp', 'name_j': NAME[j], 'intervals': ListV([C(0), D.sym('b' + j)]),
-                                'slopes': ListV([D.sym('k0' + j), D.sym('k1' + j)])}, None)
-        Rk = D.sym('kb') * D.sym('Na') * D.sym('U<kcal>')
-        for order_ in (('B', 'C'), ('C', 'B'), ('D', 'B', 'C'), ('C', 'D', 'B')):
-            o = species_obj(I, repo, kind, ListV([covs[j] for j in order_]))
+        T = D.sym('T')
+        o, co = species_obj(I, repo, kind, None, 'G')
+        for q, sgn in (('SoR', -1), ('GoRT', 1)):
+            owner, fn = repo.find_method(o.ci, 'get_' + q)
+            for p_ in PRESSURES:
+                got = I.call_method(o, 'get_' + q, [], {'T': T, 'P': C(p_)})
+                if isinstance(got, SumV):
+                    got = got.scalar + got.elem if got.elem.iszero() else got
+                want = bare(I, repo, kind, co, q, T) + C(sgn) * D.ln(C(p_))
+                run.check(same(got, want), 'REF.corrections', '%s.get_%s' % (kind, q), 'pressure given as a number',
+                          'a gas species at P = %s bar gives %s, expected polynomial %s ln(%s)'
+                          % (float(p_), show(got, 200), '-' if sgn < 0 else '+', float(p_)), owner.module, fn)
+                n += 1
+    # several coverage effects, each addressed through its own per-species keyword block, in several orders: every
+    # model must see its own species' coverage (conditions of one model must not leak into the next, a block must
+    # not be lost because of the way its species is called)
+    ORDERS = ((None, ('B', 'C')), ('S', ('C', 'B')), ('S', ('D', 'B', 'C')), (None, ('C', 'D', 'B')),
+              ('S', ('E',)), ('S', ('F', 'H')), (None, ('H', 'E', 'F')), ('S', ('F', 'B', 'H', 'E')))
+    for kind in ('Nasa', 'Nasa9', 'Shomate'):
+        for phase, order_ in ORDERS:
+            rk = dict(ranks(2))
+            for j in NAME:
+                rk.update({'x' + j: 1, 'b' + j: 5})
+            I = Interp(repo, order=RankOrder(rk, const_ranks=True))
+            D = I.D
+            fr = Frame(I, repo.module('pmutt'), {}, None, None)
+            T, P = D.sym('T'), D.sym('P')
+            covs = [fr.apply(cci, [], {'name_i': 'sp', 'name_j': NAME[j], 'intervals': ListV([C(0), D.sym('b' + j)]),
+                                       'slopes': ListV([D.sym('k0' + j), D.sym('k1' + j)])}, None) for j in order_]
+            Rk = D.sym('kb') * D.sym('Na') * D.sym('U<kcal>')
+            o, co = species_obj(I, repo, kind, ListV(covs), phase)
             blocks = {'%s_kwargs' % NAME[j]: DictV({'x': D.sym('x' + j)}) for j in order_}
-            want = bare(I, repo, kind, o, 'HoRT', T)
+            want = bare(I, repo, kind, co, 'HoRT', T)
             for j in order_:
                 want = want + D.sym('k0' + j) * D.sym('x' + j) / (Rk * T)
             owner, fn = repo.find_method(o.ci, 'get_HoRT')
             got = I.call_method(o, 'get_HoRT', [], dict({'T': T, 'P': P}, **blocks))
             if isinstance(got, SumV):
                 got = got.scalar + got.elem if got.elem.iszero() else got
-            run.check(same(got, want), 'REF.corrections', '%s.get_HoRT' % kind, 'coverage effects of several species',
+            plain = all(j in 'BCD' for j in order_)
+            run.check(same(got, want), 'REF.corrections', '%s.get_HoRT' % kind,
+                      'coverage effects of several species' if plain else 'coverage block of a species named like the key',
                       'with coverage effects of species %s attached and each coverage given in its own '
                       '<name>_kwargs block the value is %s, expected polynomial + sum_j slope_j*x_j/RT'
                       % (','.join(NAME[j] for j in order_), show(got, 240)), owner.module, fn)
@@ -541,9 +614,9 @@ def check(run, repo):
     run.assumptions = ['attached models are arbitrary objects with the getter interface (uninterpreted in (a))']
     run.undecided = ['coverage model numerics (C17)', 'copying via copy.deepcopy']
     thorough = run.tier == 'thorough'
-    n = summation(run, repo, 5 if thorough else 3)
+    n = summation(run, repo, 5 if thorough else 3, thorough)
     run.floor('summation instances', n, 180)
-    n = real_models(run, repo)
+    n = real_models(run, repo, thorough)
     run.floor('real-model instances', n, 24)
     n = attachment(run, repo)
     run.floor('attachment cases', n, 150)
